@@ -80,24 +80,46 @@ def findBoard (name : String) : List Board → Option Board
 def kidsOf (b : Board) (k : String) : List Board :=
   if k == "layers" then b.layers else if k == "scenarios" then b.scenarios else if k == "steps" then b.steps else []
 
-/-- `hasBoard(root, ida)`; fuel = length of the path -/
-def hasBoard : Nat → Board → List Seg → Bool
+/-- which variant of the four link-handling spots the tree under test has (regenerated: D2V.Gen.LinksCfg) -/
+structure Cfg where
+  danglingFalse : Bool    -- hasBoard: `len(ida) == 1` ↦ false          (legacy: compare with the name of the board reached)
+  singleRoot : Bool       -- hasBoard: one leading `root` is stripped    (legacy: every `root` element is skipped)
+  idaPerLevel : Bool      -- Graph.IDA: a kind word per level            (legacy: only the board's own kind word)
+  relinkByValue : Bool    -- relink compares element values              (legacy: compares the strings)
+  deriving DecidableEq, Repr
+
+def Cfg.legacy : Cfg := ⟨false, false, false, false⟩
+def Cfg.fixed : Cfg := ⟨true, true, true, true⟩
+
+def isRootSeg (x : Seg) : Bool := x.s == "root" && x.unq
+
+/-- the recursive part of `hasBoard`; fuel = length of the path -/
+def hasBoardPath (cfg : Cfg) : Nat → Board → List Seg → Bool
   | 0, _, ida => ida.isEmpty
   | f + 1, b, ida =>
     match ida with
     | [] => true
     | x :: rest =>
-      if x.s == "root" && x.unq then hasBoard f b rest
+      if !cfg.singleRoot && isRootSeg x then hasBoardPath cfg f b rest
       else match rest with
-        | [] => String.ofList b.name == x.s
+        | [] => if cfg.danglingFalse then false else String.ofList b.name == x.s
         | nx :: rest2 =>
           match findBoard nx.s (kidsOf b x.s) with
-          | some c => hasBoard f c rest2
+          | some c => hasBoardPath cfg f c rest2
           | none => false
 
-/-- `d2graph.(*Graph).IDA()` for the board reached from the root through `path = root.kind₁.name₁.kind₂.name₂…`:
-    `root`, then the kind word of the board itself (once), then the names of all its ancestors and itself -/
-def graphIDA (path : List String) : List String :=
+/-- `hasBoard(root, ida)` -/
+def hasBoard (cfg : Cfg) (fuel : Nat) (b : Board) (ida : List Seg) : Bool :=
+  if cfg.singleRoot then
+    match ida with
+    | x :: rest => if isRootSeg x then hasBoardPath cfg fuel b rest else hasBoardPath cfg fuel b ida
+    | [] => true
+  else hasBoardPath cfg fuel b ida
+
+/-- `d2graph.(*Graph).IDA()` for the board reached from the root through `path = root.kind₁.name₁.kind₂.name₂…`.
+    legacy: `root`, then the kind word of the board itself (once), then the names of all its ancestors and itself;
+    per level: the path itself -/
+def graphIDA (cfg : Cfg) (path : List String) : List String :=
   let rec names : List String → List String
     | _ :: n :: r => n :: names r
     | _ => []
@@ -105,7 +127,8 @@ def graphIDA (path : List String) : List String :=
     | k :: _ :: [] => some k
     | _ :: _ :: r => lastKind r
     | _ => none
-  match path with
+  if cfg.idaPerLevel then path
+  else match path with
   | [] => ["root"]
   | _ :: rest =>
     let ns := (names rest).filter (· ≠ "")
@@ -116,15 +139,23 @@ def graphIDA (path : List String) : List String :=
 
 /-- what `validateBoardLinks` does to one object's link (`remote` is Go's url.Parse test, computed by the harness):
     `true` = kept -/
-def validateLink (root : Board) (boardIDA : List String) (remote : Bool) (link : List Seg) : Bool :=
+def validateLink (cfg : Cfg) (root : Board) (boardIDA : List String) (remote : Bool) (link : List Seg) : Bool :=
   if remote then true
   else match link with
     | [] => false
     | x :: _ =>
       if x.s != "root" then false
-      else if !(hasBoard (link.length + 1) root link) then false
+      else if !(hasBoard cfg (link.length + 1) root link) then false
       else if link.map (·.s) == boardIDA then false
       else true
+
+/-- the string `relink` looks up in the board ↦ file map for a shape link -/
+def relinkKey (cfg : Cfg) (raw : String) (segs : Option (List Seg)) : String :=
+  if cfg.relinkByValue then
+    match segs with
+    | some l => ".".intercalate (l.map (·.s))
+    | none => raw
+  else raw
 
 /-! ### the property's own reading of "an absolute board path that exists" -/
 
